@@ -14,6 +14,19 @@ class StringV:
     def __repr__(self):
         return f"StringV({self.value})"
 
+    def __eq__(self, other):
+        if isinstance(other, StringV):
+            return self.value == other.value
+        return NotImplemented
+
+    def __ne__(self, other):
+        if isinstance(other, StringV):
+            return self.value != other.value
+        return NotImplemented
+
+    def __hash__(self):
+        return hash(self.value)
+
 
 def StrConcat(*args):
     """
